@@ -37,6 +37,9 @@ def gen_tasks(tier, seed):
         base = {"name": name, "starts": [], "ends": []}
         nog = {"optimize_with_greedy": False}
         tasks.append({**base, "cls": "kFlowDecomp", "edges": wedges, "kwargs": {"k": k, "weight_type": "int", "optimization_options": nog}})
+        # guessed-weights shortcut of the minimum search (non-default), with and without the greedy shortcut
+        for oo in ({"optimize_with_guessed_weights": True}, {"optimize_with_guessed_weights": True, "optimize_with_greedy": False}):
+            tasks.append({**base, "cls": "MinFlowDecomp", "edges": wedges, "kwargs": {"weight_type": "int", "optimization_options": dict(oo)}})
         # greedy shortcut (default options) with k at, one above and three above the number of routes of the flow: the padded solution
         for kk in (k, k + 1, k + 3):
             tasks.append({**base, "cls": "kFlowDecomp", "edges": wedges, "kwargs": {"k": kk, "weight_type": "int"}})
